@@ -1507,34 +1507,6 @@ INTERNAL_DECL(kdump_status, cache_get_page,
 INTERNAL_DECL(void, cache_put_page,
 	      (struct page_io *pio));
 
-/** Get page data.
- * @param pio  Page I/O control.
- * @returns    Error status.
- *
- * Intended use of this function:
- * - Fill in @c pio.ctx and @c pio.addr.
- * - Call @c get_page.
- * - Check return status. If successful, @c pio.chunk.data
- *   contains a pointer to the cached page data.
- */
-static inline kdump_status
-get_page(struct page_io *pio)
-{
-	return pio->ctx->shared->ops->get_page(pio);
-}
-
-/** Release page data.
- * @param pio  Page I/O control.
- *
- * Call this function to let the cache know that the data structures
- * used to provide the buffer are no longer needed.
- */
-static inline void
-put_page(struct page_io *pio)
-{
-	pio->ctx->shared->ops->put_page(pio);
-}
-
 /* Inline utility functions */
 
 static inline unsigned
@@ -1871,6 +1843,39 @@ static inline void
 clear_error(kdump_ctx_t *ctx)
 {
 	err_clear(&ctx->err);
+}
+
+/** Get page data.
+ * @param pio  Page I/O control.
+ * @returns    Error status.
+ *
+ * Intended use of this function:
+ * - Fill in @c pio.ctx and @c pio.addr.
+ * - Call @c get_page.
+ * - Check return status. If successful, @c pio.chunk.data
+ *   contains a pointer to the cached page data.
+ */
+static inline kdump_status
+get_page(struct page_io *pio)
+{
+	const struct format_ops *ops = pio->ctx->shared->ops;
+
+	if (!ops || !ops->get_page)
+		return set_error(pio->ctx, KDUMP_ERR_NODATA,
+				 "No dump file is open");
+	return ops->get_page(pio);
+}
+
+/** Release page data.
+ * @param pio  Page I/O control.
+ *
+ * Call this function to let the cache know that the data structures
+ * used to provide the buffer are no longer needed.
+ */
+static inline void
+put_page(struct page_io *pio)
+{
+	pio->ctx->shared->ops->put_page(pio);
 }
 
 /* These are macros to avoid possible conversions of the "rd" parameter */
